@@ -80,7 +80,7 @@ func conjuncts(e ast.Expr) []ast.Expr {
 		}
 		// spec function whose body is a conjunction: split it too (parameters substituted)
 		if id, ok := x.Fun.(*ast.Ident); ok && specFuncsForSplit != nil {
-			if sf := specFuncsForSplit[id.Name]; sf != nil && len(sf.Params) == len(x.Args) && !mentionsOld(x) {
+			if sf := specFuncsForSplit[id.Name]; sf != nil && len(sf.Params) == len(x.Args) && !mentionsOld(x) && !(sf.Opaque && sf.Pkg != currentTopPkg) {
 				sub := map[string]ast.Expr{}
 				for i, p := range sf.Params {
 					sub[p] = x.Args[i]
